@@ -661,8 +661,10 @@ func (p *versionParser) addNum(v value) bool {
 	if v > infinity {
 		p.lex.setErr("numerical component too large")
 	}
-	if p.Version.IsWildcard() {
+	if n := len(p.Version.num); n > 0 && p.Version.num[n-1] == wildcard {
 		// Whatever follows a wildcard is covered by it: "1.x.3" is "1.x".
+		// (Nothing is added after a wildcard, so looking at the last
+		// number is enough and keeps parsing linear.)
 		return true
 	}
 	p.Version.addNum(v)
